@@ -713,6 +713,26 @@ func main() {
 	cov["family5_selfdestruct_histories"] = s5
 	total.merge(st5)
 
+	// ---- family 6: account observers after touch histories inside one transaction
+	t6 := time.Now()
+	f6Len := run.Pick(3, 4)
+	specs6 := family6Specs(f6Len)
+	gen6 := func(i int) *txCase { return family6Case(specs6[i/len(modes)], modes[i%len(modes)]) }
+	n6 := len(specs6) * len(modes)
+	determinismProbe([]*txCase{gen6(0), gen6(n6 / 2), gen6(n6 - 1)})
+	st6 := newFamStats()
+	if !want("6") {
+		n6 = 0
+	}
+	d.runCases(n6, gen6, st6, nil)
+	s6 := st6.summary()
+	s6["steps"] = f6Steps
+	s6["targets"] = f6Targets
+	s6["max_steps"] = f6Len
+	s6["wall_s"] = time.Since(t6).Seconds()
+	cov["family6_account_observer_histories"] = s6
+	total.merge(st6)
+
 	// ---- family 2: every short program
 	maxLen := run.Pick(3, 4)
 	// thorough tier: the aligned run may use the time up to minute 10, the (smaller) app-config run up to minute 13.5
@@ -792,10 +812,10 @@ func main() {
 	cov["disagreeing_cases"] = total.Disagreements
 	cov["disagreement_classes"] = flist
 	cov["exhaustive"] = exhaustive
-	cov["exhaustive_note"] = "family 1: full operand product for arity <= 3 (quick tier: <= 2), pairwise-covering orthogonal array (169 tuples) + all-equal tuples for arity 4..6 (opcodes listed in family1_opcode_x_operands); family 2: every token sequence up to max_length_completed; family 3: every listed combination; family 4: every (opcode byte, depth, filler, frame kind) combination listed; family 5: every step sequence up to max_steps x beneficiary x victim balance"
-	cov["bounds"] = map[string]interface{}{"family2_max_len": maxLen, "family2_app_config_max_len": appLen, "family2_time_cap_s": 600, "family2_all_six_variants_below_length": reduceFrom, "family4_min_depth_overflow_side": run.Pick(1021, 1015), "family5_max_steps": f5Len,
+	cov["exhaustive_note"] = "family 1: full operand product for arity <= 3 (quick tier: <= 2), pairwise-covering orthogonal array (169 tuples) + all-equal tuples for arity 4..6 (opcodes listed in family1_opcode_x_operands); family 2: every token sequence up to max_length_completed; family 3: every listed combination; family 4: every (opcode byte, depth, filler, frame kind) combination listed; family 5: every step sequence up to max_steps x beneficiary x victim balance; family 6: every touch sequence up to max_steps x target"
+	cov["bounds"] = map[string]interface{}{"family2_max_len": maxLen, "family2_app_config_max_len": appLen, "family2_time_cap_s": 600, "family2_all_six_variants_below_length": reduceFrom, "family4_min_depth_overflow_side": run.Pick(1021, 1015), "family5_max_steps": f5Len, "family6_max_steps": f6Len,
 		"work_limit_gas_families_1_3": workLimitDefault, "work_limit_gas_family_2": workLimitShort, "ample_gas_family_3": ampleGas, "ample_gas_families_1_2": ampleGasFlat}
-	cov["rule"] = "a case = one transaction (pre-state, callee or creation, call data) executed on the in-tree EVM and on upstream go-ethereum v1.8.27 (Constantinople without Petersburg) in one binary; cases: (1) every opcode byte x boundary operand tuples, executed as the called contract, behind a CALL and behind a STATICCALL, (2) every sequence of <= max_length tokens of a 47-token alphabet between a prologue pushing two words and an epilogue returning memory[0:64], top of stack, MSIZE and keccak(memory), x 3 call data x 2 pre-states (programs of the longest length: only the variants they can observe syntactically - call data variants iff a CALLDATA* token occurs, pre-state variants iff SLOAD/SSTORE/SELFDESTRUCT occurs), (3) caller {CALL,CALLCODE,DELEGATECALL,STATICCALL,CREATE,CREATE2} x value {0,1} x callee {self, two contracts, precompiles 1-8 x 7 inputs, nonexistent, plain account} x 19 callee bodies x 19 inner bodies (depth 3) x caller balance / address collision, plus creation transactions, (4) every opcode byte executed on an operand stack of exactly d items, d = 1021..1024 (thorough 1015..1024: the stack-growing opcodes PUSHn, DUPn and the zero-operand opcodes reach exactly 1022, 1023, 1024 and 1025 items) and d = items needed -1, +0, +1 (thorough 0..items needed +1), the d items produced by d straight-line fillers of 3 kinds (PUSH1 0 / PC / PUSH32 2^256-1; GAS as the gas operand of the CALL family), as the called contract, behind a CALL and behind a STATICCALL, (5) self-destruct histories inside one transaction: a driver contract performs every sequence of 1..max_steps steps {kill = call the victim which SELFDESTRUCTs, kill with value 3, fund the victim with value 5 without running SELFDESTRUCT, kill with value 3 inside a helper frame that then REVERTs} on one victim contract x beneficiary {nonexistent account, plain account, the caller, the victim itself} x initial victim balance {0, 7}, recording after every step the call flag, BALANCE(victim), BALANCE(beneficiary) in its return data and BALANCE(victim) in its storage; each under the in-tree chain configs 'aligned' (all forks at block 0) and 'app' (params.MainnetChainConfig as chain/app/evm uses it); distinct_nontrivial counts distinct reference outcome records (class, return data, logs, self-destructs, accounts/nonces/balances/storage, code length)"
+	cov["rule"] = "a case = one transaction (pre-state, callee or creation, call data) executed on the in-tree EVM and on upstream go-ethereum v1.8.27 (Constantinople without Petersburg) in one binary; cases: (1) every opcode byte x boundary operand tuples, executed as the called contract, behind a CALL and behind a STATICCALL, (2) every sequence of <= max_length tokens of a 47-token alphabet between a prologue pushing two words and an epilogue returning memory[0:64], top of stack, MSIZE and keccak(memory), x 3 call data x 2 pre-states (programs of the longest length: only the variants they can observe syntactically - call data variants iff a CALLDATA* token occurs, pre-state variants iff SLOAD/SSTORE/SELFDESTRUCT occurs), (3) caller {CALL,CALLCODE,DELEGATECALL,STATICCALL,CREATE,CREATE2} x value {0,1} x callee {self, two contracts, precompiles 1-8 x 7 inputs, nonexistent, plain account} x 19 callee bodies x 19 inner bodies (depth 3) x caller balance / address collision, plus creation transactions, (4) every opcode byte executed on an operand stack of exactly d items, d = 1021..1024 (thorough 1015..1024: the stack-growing opcodes PUSHn, DUPn and the zero-operand opcodes reach exactly 1022, 1023, 1024 and 1025 items) and d = items needed -1, +0, +1 (thorough 0..items needed +1), the d items produced by d straight-line fillers of 3 kinds (PUSH1 0 / PC / PUSH32 2^256-1; GAS as the gas operand of the CALL family), as the called contract, behind a CALL and behind a STATICCALL, (6) account observers after touch histories inside one transaction: a driver records EXTCODEHASH, EXTCODESIZE and BALANCE of a target {absent, present-but-empty, balance-only, nonce-only, contract, precompile, the driver itself} before and after every step of every sequence of 0..max_steps touch steps {CALL value 0, STATICCALL, CALL value 1, CALL value 1 in a helper frame that REVERTs, a helper SELFDESTRUCTs to the target}, (5) self-destruct histories inside one transaction: a driver contract performs every sequence of 1..max_steps steps {kill = call the victim which SELFDESTRUCTs, kill with value 3, fund the victim with value 5 without running SELFDESTRUCT, kill with value 3 inside a helper frame that then REVERTs} on one victim contract x beneficiary {nonexistent account, plain account, the caller, the victim itself} x initial victim balance {0, 7}, recording after every step the call flag, BALANCE(victim), BALANCE(beneficiary) in its return data and BALANCE(victim) in its storage; each under the in-tree chain configs 'aligned' (all forks at block 0) and 'app' (params.MainnetChainConfig as chain/app/evm uses it); distinct_nontrivial counts distinct reference outcome records (class, return data, logs, self-destructs, accounts/nonces/balances/storage, code length)"
 	cov["samples"] = d.samples.List()
 	run.Notes = append(run.Notes, fmt.Sprintf("wall: family1 %.1fs family3 %.1fs family4 %.1fs family5 %.1fs family2 %.1fs family2(app) %.1fs", s1["wall_s"], s3["wall_s"], s4["wall_s"], s5["wall_s"], s2["wall_s"], s2b["wall_s"]))
 	pprof.StopCPUProfile()
